@@ -315,11 +315,16 @@ func execDraw(line string) (res h.Result) {
 	}
 	name, tc, w, hh := f[0], f[1] == "1", h.Atoi(f[2]), h.Atoi(f[3])
 	ops := h.SplitTrim(f[4], ";")
+	charset := "UTF-8"
+	if i := strings.Index(name, "@"); i >= 0 {
+		name, charset = name[:i], name[i+1:]
+	}
+	utf8loc := charset == "UTF-8"
 	ti := drawTi(name, tc)
 	if ti == nil {
 		return h.Result{Obs: "no-entry"}
 	}
-	os.Setenv("LC_ALL", "en_US.UTF-8")
+	os.Setenv("LC_ALL", "en_US."+charset)
 	os.Setenv("TCELL_ALTSCREEN", "")
 	if tc {
 		os.Unsetenv("TCELL_TRUECOLOR")
@@ -404,6 +409,23 @@ func execDraw(line string) (res h.Result) {
 		sh.locked = map[[2]int]bool{}
 	}
 	markAllChanged() // nothing has been painted yet
+	acs := "-"
+	if ti.AltChars != "" {
+		acs = h.Hex([]byte(ti.AltChars))
+	}
+	u8 := 1
+	if !utf8loc {
+		u8 = 0
+		emuOps = append([]string{"C c1"}, emuOps...) // in an 8-bit locale the bytes 0x80-0x9f are C1 controls
+	}
+	emuNow := func() (map[string]string, []emuCell, string) {
+		d := h.Ref(fmt.Sprintf("emu %d %d %d 1 acs:%s %s", w, hh, u8, acs, strings.Join(emuOps, "; ")))
+		kv, cells := parseEmuDump(d)
+		return kv, cells, d
+	}
+	epoch := 0 // bumped by anything that legitimately repaints or destroys the whole display
+	lockSnap := map[[2]int]emuCell{}
+	lockEpoch := map[[2]int]int{}
 	lastDraw := false
 	tags := map[string]bool{}
 	afterDraw := func(full bool) {
@@ -478,10 +500,19 @@ func execDraw(line string) (res h.Result) {
 		case "L":
 			x, y, lw, lh, lock := h.Atoi(t[1]), h.Atoi(t[2]), h.Atoi(t[3]), h.Atoi(t[4]), t[5] == "1"
 			scr.LockRegion(x, y, lw, lh, lock)
+			var lcells []emuCell
+			var lkv map[string]string
+			if lock && lw > 0 && lh > 0 {
+				lkv, lcells, _ = emuNow()
+			}
 			for j := y; j < y+lh; j++ {
 				for k := x; k < x+lw; k++ {
 					if inr(k, j) {
 						if lock {
+							if !sh.locked[[2]int{k, j}] && lkv["size"] == fmt.Sprintf("%dx%d", sh.w, sh.h) && len(lcells) == sh.w*sh.h {
+								lockSnap[[2]int{k, j}] = lcells[j*sh.w+k]
+								lockEpoch[[2]int{k, j}] = epoch
+							}
 							sh.locked[[2]int{k, j}] = true
 						} else {
 							delete(sh.locked, [2]int{k, j})
@@ -497,6 +528,7 @@ func execDraw(line string) (res h.Result) {
 			resizeShadow()
 			if noticed {
 				sh.trusted, sh.fresh = true, true
+				epoch++
 			}
 			if sh.fresh {
 				s := sh.style
@@ -510,6 +542,7 @@ func execDraw(line string) (res h.Result) {
 			lastDraw = true
 		case "N":
 			scr.Sync()
+			epoch++
 			resizeShadow()
 			sh.trusted, sh.fresh = true, false
 			s := sh.style
@@ -521,6 +554,7 @@ func execDraw(line string) (res h.Result) {
 		case "RQ":
 			sh.ttyw, sh.ttyh = h.Atoi(t[1]), h.Atoi(t[2])
 			tty.SetSizeQuiet(sh.ttyw, sh.ttyh)
+			epoch++
 			emuOps = append(emuOps, fmt.Sprintf("R %d %d", sh.ttyw, sh.ttyh))
 			noLink()
 			sh.trusted = false
@@ -529,6 +563,7 @@ func execDraw(line string) (res h.Result) {
 			sh.ttyw, sh.ttyh = h.Atoi(t[1]), h.Atoi(t[2])
 			emuOps = append(emuOps, fmt.Sprintf("R %d %d", sh.ttyw, sh.ttyh))
 			noLink()
+			epoch++
 			tty.Resize(sh.ttyw, sh.ttyh)
 			bs := waitWrites(tty, 1, 2*time.Second)
 			resizeShadow()
@@ -541,19 +576,14 @@ func execDraw(line string) (res h.Result) {
 			tags["resize-notify"] = true
 		case "X":
 			emuOps = append(emuOps, "X")
+			epoch++
 			noLink()
 			sh.trusted = false
 			tags["corrupt"] = true
 		}
 	}
 	// ---- oracle on the emulator's view of what was written, before Fini ----
-	acs := "-"
-	if ti.AltChars != "" {
-		acs = h.Hex([]byte(ti.AltChars))
-	}
-	emuLine := fmt.Sprintf("emu %d %d 1 1 acs:%s %s", w, hh, acs, strings.Join(emuOps, "; "))
-	dump := h.Ref(emuLine)
-	kv, cells := parseEmuDump(dump)
+	kv, cells, dump := emuNow()
 	addF := func(class, format string, a ...interface{}) {
 		if len(res.Findings) < 4 {
 			res.Findings = append(res.Findings, h.Finding{Class: class, Msg: fmt.Sprintf(format, a...)})
@@ -570,7 +600,7 @@ func execDraw(line string) (res h.Result) {
 			addF("incomplete-sequence", "output ends inside a control sequence")
 		}
 		trick := cornerTrick(ti)
-		if lastDraw && sh.trusted && kv["size"] == fmt.Sprintf("%dx%d", sh.w, sh.h) && len(cells) == sh.w*sh.h {
+		if utf8loc && lastDraw && sh.trusted && kv["size"] == fmt.Sprintf("%dx%d", sh.w, sh.h) && len(cells) == sh.w*sh.h {
 			tags["judged"] = true
 			// C01: display = logical screen
 			for y := 0; y < sh.h; y++ {
@@ -641,7 +671,21 @@ func execDraw(line string) (res h.Result) {
 				addF("cursor-not-parked", "cursor cannot be hidden and is at %s instead of the bottom-right corner", kv["cursor"])
 			}
 		}
-		// C13: only changed cells receive payload; locked cells never (stamps of the reference emulator)
+		// C13: a locked cell keeps what the terminal showed when it was locked
+		if len(cells) == sh.w*sh.h && kv["size"] == fmt.Sprintf("%dx%d", sh.w, sh.h) {
+			for k := range sh.locked {
+				snap, ok := lockSnap[k]
+				if !ok || lockEpoch[k] != epoch || !inr(k[0], k[1]) {
+					continue
+				}
+				ec := cells[k[1]*sh.w+k[0]]
+				if ec.runes != snap.runes || ec.pen != snap.pen || strings.Contains(ec.flags, "c") != strings.Contains(snap.flags, "c") {
+					addF("locked-cell-overpainted", "cell (%d,%d) is locked and showed %s/%s/%s when it was locked; the terminal now shows %s/%s/%s (block %d)",
+						k[0], k[1], snap.runes, snap.pen, snap.flags, ec.runes, ec.pen, ec.flags, ec.stamp)
+				}
+			}
+		}
+		// C13: only changed cells receive payload (write stamps of the reference emulator)
 		if len(cells) == sh.w*sh.h && kv["size"] == fmt.Sprintf("%dx%d", sh.w, sh.h) && sh.trusted {
 			for y := 0; y < sh.h; y++ {
 				for x := 0; x < sh.w; x++ {
@@ -662,6 +706,9 @@ func execDraw(line string) (res h.Result) {
 	<-done
 	record("z", tty.TakeWrites())
 	res.Obs = strings.Join(obs, " ")
+	if !utf8loc {
+		res.Obs = "SKIP 8-bit locale: judged by the oracle only (the byte-level model is instantiated for UTF-8)"
+	}
 	for t := range tags {
 		res.Tags = append(res.Tags, t)
 	}
@@ -716,7 +763,7 @@ func fitOps(name string, cols map[uint64]bool) []string {
 func genDraw(g *h.Gen) {
 	r := g.R
 	ents := ecmaEntries()
-	n := g.N(300, 20000)
+	n := g.N(1200, 40000)
 	fixed := []string{"xterm-256color", "linux", "vt100", "sun-color", "xterm-kitty", "screen-256color"}
 	for i := 0; i < n; i++ {
 		name := h.Pick(r, ents)
@@ -760,7 +807,11 @@ func genDraw(g *h.Gen) {
 			case k < 61:
 				ops = append(ops, fmt.Sprintf("K %d %d", r.Intn(7), h.Pick(r, genColors)))
 			case k < 68:
-				ops = append(ops, fmt.Sprintf("L %d %d %d %d %d", x, y, r.Range(0, 3), r.Range(0, 2), r.Intn(2)))
+				lk := r.Intn(2)
+				ops = append(ops, fmt.Sprintf("L %d %d %d %d %d", x, y, r.Range(0, 3), r.Range(0, 2), lk))
+				if lk == 1 && r.Chance(40) { // a wide rune right beside the locked region
+					ops = append(ops, fmt.Sprintf("S %d %d %d - %s", x-1, y, h.Pick(r, []int{0x4e16, 0x754c, 0xff21}), drawStyle(r)))
+				}
 			case k < 86:
 				ops = append(ops, "W")
 			case k < 90:
@@ -785,7 +836,50 @@ func genDraw(g *h.Gen) {
 	}
 }
 
+// genDrawCP: every code point (and out-of-range rune values) as primary content, in the first, a middle and the last
+// column, UTF-8 and an 8-bit locale.
+func genDrawCP(g *h.Gen) {
+	var cps []int
+	if g.Thorough() {
+		for c := 0; c <= 0x10FFFF; c++ {
+			cps = append(cps, c)
+		}
+	} else {
+		for c := 0; c < 0x3000; c++ {
+			cps = append(cps, c)
+		}
+		for c := 0x3000; c <= 0x10FFFF; c += 61 {
+			cps = append(cps, c)
+		}
+		for _, c := range []int{0xd7ff, 0xd800, 0xdfff, 0xe000, 0xfffd, 0xfffe, 0xffff, 0x10000, 0x1f600, 0xe0001, 0xe0100, 0x10ffff} {
+			cps = append(cps, c)
+		}
+	}
+	cps = append(cps, -1, -2, -0x80000000, 0x110000, 0x110001, 0x7fffffff)
+	targets := []string{"xterm-256color", "xterm-256color@ISO8859-1", "linux", "vt100@ISO8859-1"}
+	const per = 12
+	for ti, tgt := range targets {
+		if !g.Thorough() && ti >= 2 {
+			// the two extra targets see a thinner sample in the quick tier
+			continue
+		}
+		for i := 0; i < len(cps); i += per {
+			var ops []string
+			for k := 0; k < per && i+k < len(cps); k++ {
+				x := []int{0, 3, 7}[k%3]
+				y := k / 3
+				ops = append(ops, fmt.Sprintf("S %d %d %d - 0,0,0,0,0,-,-", x, y, cps[i+k]))
+			}
+			ops = append(ops, "W")
+			g.Emit("draw %s 0 8 4 %s", tgt, strings.Join(ops, "; "))
+		}
+	}
+}
+
 func init() {
+	h.Register(&h.Engine{Name: "drawcp",
+		Rule: "every code point (quick: all below U+3000, every 61st above, boundary values; thorough: all 0x110000) and out-of-range rune values as primary cell content in the first, a middle and the last column; UTF-8 and ISO8859-1 locales; 12 runes per case; every case is non-trivial",
+		Gen:  genDrawCP, Exec: execDraw})
 	h.Register(&h.Engine{Name: "draw",
 		Rule: "draw histories (4-36 ops) on a real terminfo screen over a fake tty, every ECMA-family entry, direct colour on/off, sizes 2..7 x 1..4; distinct = distinct line; non-trivial = at least one in-range SetContent",
 		Gen:  genDraw, Exec: execDraw})
